@@ -1404,3 +1404,15 @@ impl SwarmDriver {
             .map(|r| r.into_owned())
     }
 }
+
+/// Verification hook: pass-through to the crate-private start-up check that compares
+/// `<root>/network_key_version` with the running version and wipes the record store on a mismatch
+/// (reached by the external /verif harness through `record_store::verif`).
+#[cfg(maidsafe_safe_network_verif)]
+pub(crate) fn verif_check_and_wipe_storage_dir_if_necessary(
+    root_dir: PathBuf,
+    storage_dir_path: PathBuf,
+    cur_version_str: String,
+) -> Result<()> {
+    check_and_wipe_storage_dir_if_necessary(root_dir, storage_dir_path, cur_version_str)
+}
